@@ -139,6 +139,11 @@ func splitCond(e ast.Expr, truth bool) []pcond {
 // pathConds returns the conditions known to hold at target inside fd: enclosing if/else branches,
 // negations of preceding early exits in the enclosing statement lists, enclosing case clauses.
 func pathConds(fd *ast.FuncDecl, target ast.Node) []pcond {
+	return expandBoolLocals(fd, pathCondsRaw(fd, target), 3)
+}
+
+// pathCondsRaw: pathConds without the expansion of boolean locals and helper results (conditions as written).
+func pathCondsRaw(fd *ast.FuncDecl, target ast.Node) []pcond {
 	var out []pcond
 	var path []ast.Node
 	found := false
@@ -229,7 +234,7 @@ func pathConds(fd *ast.FuncDecl, target ast.Node) []pcond {
 			}
 		}
 	}
-	return expandBoolLocals(fd, out, 3)
+	return out
 }
 
 // expandBoolLocals replaces a condition that is a local boolean variable assigned exactly once, from a boolean
